@@ -572,9 +572,9 @@ example : inF3 5 exLoopProg [] [] = true := by rfl
 example : inF1 exLoopProg = false := by rfl
 example : evalCore 50 [] exLoopProg = .ok (.int 16) := by rfl
 example : (runModule 1000 (compileModule 5 exLoopProg).2.1 []).map (·.1) = .ok (.int 16) := by rfl
-example : True ∨ (compileModule 5 exLoopProg).2.1.instrs =
-    [.pushInt 10, .newClosure 0 2, .push 1, .push 1, .push 0, .closeClosure 2, .push 1, .pushInt 3,
-     .pushInt 0, .tailCall 2, .slide 2, .ret] := Or.inl trivial
+example : (compileModule 5 exLoopProg).2.1.instrs =
+    [.pushInt 10, .newClosure 0 2, .push 1, .push 0, .push 1, .closeClosure 2, .push 1, .pushInt 3,
+     .pushInt 0, .tailCall 2, .slide 2, .ret] := by rfl
 
 /-- What is proved of the full statement `compile_correct` (see the header): the highest rung
     reached, F2 on known closures. -/
